@@ -46,11 +46,18 @@ theorem C15_bad_rank_rejected (t : Tensor) (p lo hi n)
     preprocess false (.box p lo hi) t = .error .rank ∧
     preprocess true (.multiBinary n) t = .error .rank := by
   constructor
-  · simp only [preprocess]
-    rw [if_neg (by simp)]
-    simp only [bind, Except.bind]
-    exact mabd_rank_error t p hbox
-  · simp only [preprocess]
+  · cases p with
+    | nil =>
+      simp only [preprocess, preprocessWith, bind, Except.bind]
+      rw [if_neg (by simp)]
+      simp only [and_self, if_true]
+      exact mabd_rank_error _ [1] (by simp at hbox ⊢; omega)
+    | cons d ps =>
+      simp only [preprocess, preprocessWith, bind, Except.bind]
+      rw [if_neg (by simp)]
+      simp only [reduceCtorEq, false_and, if_false]
+      exact mabd_rank_error t (d :: ps) hbox
+  · simp only [preprocess, preprocessWith]
     exact mabd_rank_error t [n] (by simpa using hmb)
 
 /-- **One-hot values.**  The one-hot vector of `v < n` has length `n`, a `1` at position `v`, `0`
@@ -94,7 +101,8 @@ theorem C15_onehot_value_out_of_range (norm : Bool) (n : Nat) (v : Int) (hv : v 
     (s : List Nat) : preprocess norm (.discrete n) ⟨s, [(v : Rat)]⟩ = .error .range := by
   have : oneHot n v = none := by
     unfold oneHot; rw [if_neg (by omega)]
-  simp [preprocess, prepDiscrete, oneHotAll, toLong_intCast, this, allOk, liftOpt, bind, Except.bind]
+  simp [preprocess, preprocessWith, prepDiscrete, oneHotAll, toLong_intCast, this, allOk, liftOpt, bind,
+    Except.bind]
 
 /-- MultiDiscrete: the network row is the concatenation of the one-hots of the components — the
     segment `[offset i, offset i + nvec[i])`, `offset i = nvec[0] + … + nvec[i-1]`, is exactly the
@@ -149,14 +157,17 @@ theorem C15_normalize_rowwise (p : List Nat) (hp : p.length = 3) (l h : List Rat
     ∀ x ∈ xs, ∀ i (hi : i < (normRow l h x).length) (h1 : i < l.length) (h2 : i < h.length)
       (h3 : i < x.length), (normRow l h x)[i] = normalize l[i] h[i] x[i] := by
   constructor
-  · have := (C15_rowwise true _ hsp xs hv).2
-    have hl : allOk (l.map some) = some l := by
-      simpa using allOk_map_some (fun x => some x) id l (by simp)
-    have hh : allOk (h.map some) = some h := by
-      simpa using allOk_map_some (fun x => some x) id h (by simp)
-    have hP : prepRow true (.box p (l.map some) (h.map some)) = normRow l h := by
-      funext r; simp [prepRow, hp, normData, hl, hh]
-    simpa [Leaf.obsShape, Leaf.netShape, hP] using this
+  · cases p with
+    | nil => simp at hp
+    | cons d ps =>
+      have := (C15_rowwise true _ hsp xs hv).2
+      have hl : allOk (l.map some) = some l := by
+        simpa using allOk_map_some (fun x => some x) id l (by simp)
+      have hh : allOk (h.map some) = some h := by
+        simpa using allOk_map_some (fun x => some x) id h (by simp)
+      have hP : prepRow true (.box (d :: ps) (l.map some) (h.map some)) = normRow l h := by
+        funext r; simp only [prepRow]; rw [if_pos ⟨hp, trivial⟩]; simp [normData, hl, hh]
+      simpa [Leaf.obsShape, Leaf.netShape, hP] using this
   · intro x _ i hi h1 h2 h3
     exact normRow_getElem l h x i hi h1 h2 h3
 
@@ -322,24 +333,19 @@ theorem C15_stack_critic_rows_independent (B B' : Nat) (ts ts' : List (Tensor ×
       ((stackCritic B' ts').rows ((ts'.map (·.2)).sum))[b']? := by
   rw [stackCritic_row B ts hts h b hb, stackCritic_row B' ts' hts' h' b' hb', hrow]
 
-/-- the legacy MultiDiscrete code (first batch-dimension test against `Σ nvec` instead of
-    `len nvec`) rejects a (step, env)-shaped input that the repaired code prepares correctly -/
-theorem C15_multidiscrete_step_env_legacy_witness :
-    prepMultiDiscreteLegacy [2, 3] ⟨[2, 3, 2], [1, 2, 0, 0, 1, 1, 1, 2, 0, 0, 1, 1]⟩ = .error .view ∧
-    (prepMultiDiscrete [2, 3] ⟨[2, 3, 2], [1, 2, 0, 0, 1, 1, 1, 2, 0, 0, 1, 1]⟩).toOption.map (·.shape)
-      = some [6, 5] := by
-  constructor
-  · decide
-  · have := preprocess_batch false (.multiDiscrete [2, 3]) (by simp [WellFormed]) [2, 3] (by simp)
-      [[1, 2], [0, 0], [1, 1], [1, 2], [0, 0], [1, 1]]
-      (by
-        intro r hr
-        simp only [List.mem_cons, List.not_mem_nil, or_false] at hr
-        rcases hr with rfl | rfl | rfl | rfl | rfl | rfl <;>
-          simp [ValidObs, InRange, toLong])
-    simp only [preprocess, Leaf.obsShape, List.cons_append, List.nil_append, List.flatten_cons,
-      List.flatten_nil, List.append_nil, List.length_cons, List.length_nil] at this
-    rw [this]; simp [Except.toOption, Leaf.netShape, numel]
+/-- **Legacy behaviours (witnesses).**  The two analysed legacy behaviours violate the property on
+    concrete inputs, the repaired model does not: (1) MultiDiscrete tested its first batch dimension
+    against `Σ nvec` instead of `len nvec`, so a (step, env) input was rejected; (2) a scalar Box
+    got no feature dimension, so a batch of two scalars had shape `[2]` instead of `[2, 1]`
+    (networks are built with `flatdim = 1` input feature). -/
+theorem C15_legacy_witness :
+    preprocessLegacy true (.multiDiscrete [2, 3])
+        ⟨[2, 3, 2], [1, 2, 0, 0, 1, 1, 1, 2, 0, 0, 1, 1]⟩ = .error .view ∧
+    (preprocess true (.multiDiscrete [2, 3])
+        ⟨[2, 3, 2], [1, 2, 0, 0, 1, 1, 1, 2, 0, 0, 1, 1]⟩).toOption.map (·.shape) = some [6, 5] ∧
+    (preprocessLegacy true (.box [] [none] [none]) ⟨[2], [3, 4]⟩).toOption.map (·.shape) = some [2] ∧
+    (preprocess true (.box [] [none] [none]) ⟨[2], [3, 4]⟩).toOption.map (·.shape) = some [2, 1] := by
+  refine ⟨by decide, by decide, by decide, by decide⟩
 
 /-! ### non-vacuity: the hypotheses are satisfiable on concrete, non-trivial inputs -/
 
